@@ -1,18 +1,407 @@
 /-
 C10 — CSG logic rewriting and encoding preserve the region's boolean function.
 Property theorems only (helper lemmas live in Lemmas/Csg*.lean).
+
+Model: Model/Csg.lean, CsgLogic.lean, CsgDeMorgan.lean (hand-written, tied to the C++ by the
+correspondence harness harness/csg.cc) + Generated/CsgConsts.lean (token values, stack width,
+replacer lattice order regenerated from the source).
+
+Vocabulary (Lemmas/CsgBasic.lean, CsgInv.lean):
+* `denote t σ n`   boolean value of node `n` under the surface senses `σ`;
+* `Models t σ v`   `v` satisfies the defining equation of every node (on a sorted tree the only
+                   such `v` is `denote t σ`: `models_unique`); statements about `Models` do not
+                   need the topological order and therefore hold for EVERY reachable tree;
+* `Good t σ v`     `Struct t` (node 0 = true, node 1 = ¬true, child ids and dedup ids in range)
+                   ∧ `Models t σ v` ∧ `MapSound t σ v` (every dedup-map key evaluates like the
+                   id it maps to);
+* `TreeInv t`      `Struct t` ∧ `Sorted t` (children < own id) ∧ dedup map sound for `denote`.
 -/
-import CelerVerif.Model.Csg
-import CelerVerif.Model.CsgLogic
+import CelerVerif.Lemmas.CsgInv
+import CelerVerif.Lemmas.CsgPostfix
+import CelerVerif.Lemmas.CsgFlag
+import CelerVerif.Lemmas.CsgBitStack
+import CelerVerif.Lemmas.CsgExamples
 
 namespace CelerVerif.Csg
 open CelerVerif.Generated.Csg
 
 /-- the regenerated token values are pairwise distinct operator tokens, node 0/1 are the
-    constants the model hard-codes -/
+    constants the model hard-codes, the stack is one machine word -/
 theorem tokens_consistent :
     trueId = 0 ∧ falseId = 1 ∧ lbegin ≤ ltrue ∧ lbegin ≤ lor ∧ lbegin ≤ land ∧ lbegin ≤ lnot ∧
     ltrue ≠ lor ∧ ltrue ≠ land ∧ ltrue ≠ lnot ∧ lor ≠ land ∧ lor ≠ lnot ∧ land ≠ lnot ∧
-    maxStackDepth = wordBits := by decide
+    maxStackDepth = wordBits ∧ wordBits = 32 ∧
+    replUnvisited < replUnknown ∧ replUnknown < replKnownFalse ∧ replKnownFalse < replKnownTrue := by
+  decide
+
+/-! ### (a) the 32-bit `LogicStack` refines the list-stack reference -/
+
+/-- ★ (a) for every well-formed postfix logic (the reference run neither underflows nor meets an
+    unknown token and ends with one value) whose `calc_max_depth` is at most 32, the evaluator
+    as written (shifts and masks on one 32-bit word, no checks) returns the reference value.
+    `OrangeParams` validates the stricter `max_logic_depth < 32`. -/
+theorem logicStack_refines_reference (l : List Nat) (vals : Nat → Bool) (b : Bool)
+    (hwf : evalRef l vals = some b) (hdepth : calcMaxDepth l ≤ 32) : evalBits l vals = b :=
+  bitstack_refines l vals b hwf hdepth
+
+/-- `calc_max_depth` (which samples the depth only at binary operators) bounds the stack length
+    at every point of a well-formed run, and never returns the invalid sentinel for it -/
+theorem calcMaxDepth_bounds_stack (l₁ l₂ : List Nat) (vals : Nat → Bool) (b : Bool)
+    (hwf : evalRef (l₁ ++ l₂) vals = some b) :
+    (∃ mid, evalRefLoop vals l₁ [] = some mid ∧ evalRefLoop vals l₂ mid = some [b] ∧
+      (mid.length : Int) ≤ calcMaxDepth (l₁ ++ l₂)) ∧
+    1 ≤ calcMaxDepth (l₁ ++ l₂) ∧ calcMaxDepth (l₁ ++ l₂) ≠ invalidMaxDepth :=
+  ⟨mid_le_calcMaxDepth hwf, (peak_le_calcMaxDepth hwf).2.1, (peak_le_calcMaxDepth hwf).2.2⟩
+
+/-- the bound 32 is sharp: a well-formed logic of depth 33 on which the word-sized stack gives
+    the wrong answer -/
+theorem logicStack_wrong_at_depth_33 :
+    evalRef deep33 (fun _ => true) = some true ∧ calcMaxDepth deep33 = 33 ∧
+    evalBits deep33 (fun _ => true) = false :=
+  ⟨by decide, by decide, evalBits_deep33⟩
+
+example : evalBits deep32 (fun _ => true) = true :=
+  logicStack_refines_reference deep32 (fun _ => true) true (by decide) (by decide)
+
+/-! ### (b) postfix encoding -/
+
+/-- ★ (b), order-free form: for every model `v` of the tree, the logic returned by
+    `PostfixLogicBuilder` for node `n` — without or with the optional sorted surface mapping
+    (`MappingOk`: strictly sorted, contains every surface of the tree, as `UnitProto` passes it) —
+    evaluated by the reference evaluator with the sense of face `f` taken from surface
+    `faces[f]` (through the mapping: surface `m[faces[f]]`), yields `v n`; and so does the real
+    32-bit evaluator when `calc_max_depth ≤ 32`.  (`postfixOf … = some` excludes the inputs on
+    which the C++ recursion is undefined: cyclic tree, `False` node, empty join.) -/
+theorem postfix_correct_models {t : Tree} {σ v : Nat → Bool} (s : Struct t) (hm : Models t σ v)
+    (hsurf : ∀ i k, i < t.size → t.get i = .surface k → k < lbegin)
+    (mapping : Option (List Nat)) (hmap : MappingOk t mapping) {n : Nat} (hn : n < t.size)
+    {faces lgc : List Nat} (h : postfixOf t mapping n = some (faces, lgc)) :
+    evalRef lgc (fun f => mapVals σ mapping (faces.getD f 0)) = some (v n) ∧
+    (calcMaxDepth lgc ≤ 32 →
+      evalBits lgc (fun f => mapVals σ mapping (faces.getD f 0)) = v n) := by
+  have h1 := postfixOf_evalRef s hm hsurf mapping hmap hn h
+  exact ⟨h1, fun hd => bitstack_refines _ _ _ h1 hd⟩
+
+/-- ★ (b) on a tree satisfying the invariant: evaluating the emitted postfix logic with senses
+    taken through the face map equals `denote` -/
+theorem postfix_correct {t : Tree} (inv : TreeInv t)
+    (hsurf : ∀ i k, i < t.size → t.get i = .surface k → k < lbegin)
+    (mapping : Option (List Nat)) (hmap : MappingOk t mapping) (σ : Nat → Bool) {n : Nat}
+    (hn : n < t.size) {faces lgc : List Nat} (h : postfixOf t mapping n = some (faces, lgc)) :
+    evalRef lgc (fun f => mapVals σ mapping (faces.getD f 0)) = some (denote t σ n) ∧
+    (calcMaxDepth lgc ≤ 32 →
+      evalBits lgc (fun f => mapVals σ mapping (faces.getD f 0)) = denote t σ n) :=
+  postfix_correct_models inv.struct (denote_models inv.sorted σ) hsurf mapping hmap hn h
+
+/-! ### (c) insert / exchange / simplify -/
+
+/-- ★ (c1) `CsgTree::insert` keeps the invariant, keeps the meaning of every existing node and
+    returns an id that denotes the inserted node (preconditions = `IsUserNodeValid`, and the
+    node count fits `size_type`) -/
+theorem insert_preserves {t : Tree} (inv : TreeInv t) {n : Node}
+    (hn : ∀ c ∈ n.children, c < t.size) (hsmall : t.size < invalid) :
+    TreeInv (insert t n).1 ∧
+    (∀ σ i, i < t.size → denote (insert t n).1 σ i = denote t σ i) ∧
+    (∀ σ, denote (insert t n).1 σ (insert t n).2.1 = evalNode σ (denote t σ) n) ∧
+    (insert t n).2.1 < (insert t n).1.size := by
+  have hso := insert_sorted inv.struct inv.sorted hn
+  have hg := fun σ => insert_good (inv.good σ) hn hsmall
+  have hinv : TreeInv (insert t n).1 :=
+    treeInv_of_good hso (fun σ => by rcases hg σ with ⟨v', _, g, _⟩; exact ⟨v', g⟩)
+  refine ⟨hinv, ?_, ?_, ?_⟩
+  · intro σ i hi
+    rcases hg σ with ⟨v', hv', g, _, _, hle, _⟩
+    rw [← models_unique hso g.models i (by omega), hv' i hi]
+  · intro σ
+    rcases hg σ with ⟨v', _, g, hid, hlt, _⟩
+    rw [← models_unique hso g.models _ hlt, hid]
+  · rcases hg (fun _ => true) with ⟨_, _, _, _, hlt, _⟩; exact hlt
+
+/-- ★ (c2), order-free form: `CsgTree::exchange` with a node of equal value (`evalNode σ v n =
+    v nodeId`; in `replace_and_simplify` this is "equal under the replaced constant") keeps every
+    model of the tree a model, keeps the dedup map sound and keeps the structural invariant.
+    Holds for every branch, including the swap with a higher duplicate. -/
+theorem exchange_preserves_models {t : Tree} {σ v : Nat → Bool} (g : Good t σ v) {nodeId : Nat}
+    {n : Node} (h2 : 2 ≤ nodeId) (hi : nodeId < t.size) (hn : ∀ c ∈ n.children, c < t.size)
+    (heq : evalNode σ v n = v nodeId) :
+    Good (exchange t nodeId n).1 σ v ∧ (exchange t nodeId n).1.size = t.size ∧
+    (exchange t nodeId n).1.volumes = t.volumes :=
+  ⟨⟨exchange_struct g.struct h2 hi hn, (exchange_models g.struct g.models g.map hi hn heq).1,
+    (exchange_models g.struct g.models g.map hi hn heq).2⟩, exchange_size _ _ _,
+    exchange_volumes _ _ _⟩
+
+/-- ★ (c2) `exchange` on a tree satisfying the invariant: when the swap-with-higher-duplicate
+    branch is ordered (`SwapSafe`), the invariant (including children < own id) is kept and the
+    meaning of every node is unchanged.  `SwapSafe` cannot be dropped: see
+    `simplify_node_can_break_order`. -/
+theorem exchange_preserves {t : Tree} (inv : TreeInv t) {nodeId : Nat} {n : Node}
+    (h2 : 2 ≤ nodeId) (hi : nodeId < t.size) (hn : ∀ c ∈ n.children, c < nodeId)
+    (heq : ∀ σ, evalNode σ (denote t σ) n = denote t σ nodeId) (hsafe : SwapSafe t nodeId n) :
+    TreeInv (exchange t nodeId n).1 ∧
+    ∀ σ i, i < t.size → denote (exchange t nodeId n).1 σ i = denote t σ i := by
+  have hn' : ∀ c ∈ n.children, c < t.size := fun c hc => Nat.lt_trans (hn c hc) hi
+  have hso := exchange_sorted inv.struct inv.sorted h2 hi hn hsafe
+  have hg := fun σ => (exchange_preserves_models (inv.good σ) h2 hi hn' (heq σ)).1
+  refine ⟨treeInv_of_good hso (fun σ => ⟨_, hg σ⟩), fun σ i hi' => ?_⟩
+  exact (models_unique hso (hg σ).models i (by rw [exchange_size]; exact hi')).symm
+
+/-- ★ (c3) `CsgTree::simplify(NodeId)`, order-free form -/
+theorem simplifyNode_preserves_models {t : Tree} {σ v : Nat → Bool} (g : Good t σ v)
+    {nodeId : Nat} (h2 : 2 ≤ nodeId) (hi : nodeId < t.size) :
+    Good (simplifyAt t nodeId).1 σ v ∧ (simplifyAt t nodeId).1.size = t.size ∧
+    (simplifyAt t nodeId).1.volumes = t.volumes :=
+  ⟨simplifyAt_good g h2 hi, simplifyAt_size _ _, simplifyAt_volumes _ _⟩
+
+/-- ★ (c3) `CsgTree::simplify(NodeId)` keeps the invariant and every node's meaning when the swap
+    branch is ordered -/
+theorem simplifyNode_preserves {t : Tree} (inv : TreeInv t) {nodeId : Nat} (h2 : 2 ≤ nodeId)
+    (hi : nodeId < t.size) (hsafe : SwapSafe t nodeId (t.get nodeId)) :
+    TreeInv (simplifyAt t nodeId).1 ∧
+    ∀ σ i, i < t.size → denote (simplifyAt t nodeId).1 σ i = denote t σ i := by
+  rw [simplifyAt_fst]
+  exact exchange_preserves inv h2 hi (inv.sorted nodeId hi)
+    (fun σ => (denote_models inv.sorted σ nodeId hi).symm) hsafe
+
+/-- ★ (c4) whole-tree `simplify(tree, start)` (any number of sweeps, any tree size), order-free
+    form: every model stays a model — i.e. the value of every node id (hence of every volume)
+    is unchanged for every sense assignment — and size/volumes are untouched.  `some t'` = the
+    `while (start)` loop ended within the model's sweep budget. -/
+theorem simplifyAll_preserves_models {t t' : Tree} {σ v : Nat → Bool} (g : Good t σ v)
+    {start : Nat} (h2 : 2 ≤ start) (h : simplifyAll t start = some t') :
+    Good t' σ v ∧ t'.size = t.size ∧ t'.volumes = t.volumes :=
+  simplifyAllFuel_good _ t start t' g (Or.inr h2) h
+
+/-- (c4) in terms of `denote`.  PARTIAL: the topological order of the result is a hypothesis
+    (`Sorted t'`; checked on every dump by tools/checks/c10.py).  Missing for the full statement
+    `TreeInv t → TreeInv t'`: a proof that the swap branch of `exchange` stays ordered during
+    ascending sweeps; for single-node simplification in arbitrary order it does not
+    (`simplify_node_can_break_order`). -/
+theorem simplifyAll_preserves_partial {t t' : Tree} (inv : TreeInv t) {start : Nat}
+    (h2 : 2 ≤ start) (h : simplifyAll t start = some t') (hso : Sorted t') :
+    TreeInv t' ∧ ∀ σ i, i < t.size → denote t' σ i = denote t σ i := by
+  have hg := fun σ => simplifyAll_preserves_models (inv.good σ) h2 h
+  refine ⟨treeInv_of_good hso (fun σ => ⟨_, (hg σ).1⟩), fun σ i hi => ?_⟩
+  exact (models_unique hso (hg σ).1.models i (by rw [(hg σ).2.1]; exact hi)).symm
+
+/-! ### (d) replace_and_simplify -/
+
+/-- ★ (d), order-free form: if node `key` really has the value `value` under `σ` (the assignment
+    is consistent with the replaced constant), `replace_and_simplify(tree, key, value)` raises no
+    contradiction, and every node keeps its value under `σ` (every model stays a model); the
+    replacer's "known" states are true facts (`ReplSound`, Lemmas/CsgReplace.lean). -/
+theorem replaceAndSimplify_sound {t : Tree} {σ v : Nat → Bool} (g : Good t σ v) {key : Nat}
+    (hkey : key < t.size) (value : Bool) (hk : v key = value) :
+    match replaceAndSimplify t key value with
+    | .ok t' _ => Good t' σ v ∧ t'.size = t.size ∧ t'.volumes = t.volumes
+    | .contradiction _ => False
+    | .outOfFuel _ => True :=
+  replaceAndSimplify_good g hkey value hk
+
+/-- (d) in terms of `denote`; PARTIAL for the same reason as `simplifyAll_preserves_partial`
+    (order of the result is a hypothesis) -/
+theorem replaceAndSimplify_denote_partial {t t' : Tree} (inv : TreeInv t) {key : Nat}
+    (hkey : key < t.size) (value : Bool) {unk : List Nat}
+    (h : replaceAndSimplify t key value = .ok t' unk) (hso : Sorted t') (σ : Nat → Bool)
+    (hk : denote t σ key = value) : ∀ i, i < t.size → denote t' σ i = denote t σ i := by
+  have := replaceAndSimplify_sound (inv.good σ) hkey value hk
+  rw [h] at this
+  intro i hi
+  exact (models_unique hso this.1.models i (by rw [this.2.1]; exact hi)).symm
+
+/-! ### (f) InternalSurfaceFlagger -/
+
+/-- ★ (f) a node flagged "no internal surfaces" is, in every model of the tree, a constant times
+    a conjunction of surface literals — provided no negation points at an alias node -/
+theorem flagSimple_sound {t : Tree} (s : Struct t) (hna : NoNegAlias t) {n : Nat}
+    (hn : n < t.size) (h : flag t n = some false) : IsConj t n :=
+  flagInternal_simple s hna (t.size + 1) (t.size + 1) (Nat.le_refl _) n hn h
+
+/-- (f) for `denote` on a tree satisfying the invariant -/
+theorem flagSimple_sound_denote {t : Tree} (inv : TreeInv t) (hna : NoNegAlias t) {n : Nat}
+    (hn : n < t.size) (h : flag t n = some false) :
+    ∃ (c : Bool) (L : List Lit), ∀ σ, denote t σ n = (c && litsHold σ L) := by
+  rcases flagSimple_sound inv.struct hna hn h with ⟨c, L, hc⟩
+  exact ⟨c, L, fun σ => hc σ _ (denote_models inv.sorted σ)⟩
+
+/-! ### counter-examples (model and real code agree; replayed by tools/checks/c10.py) -/
+
+/-- `SwapSafe` cannot be dropped from `simplifyNode_preserves`: on a tree reached from the empty
+    tree through public `CsgTree` calls only (`orderWitness`), `simplify(7)` takes the
+    swap-with-higher-duplicate branch of `exchange` and leaves node 7 as an alias of the HIGHER
+    node 9 — the documented "topologically sorted" invariant is broken (node values are not:
+    `simplifyNode_preserves_models`). -/
+theorem simplify_node_can_break_order :
+    Sorted orderWitness ∧ ¬ Sorted (simplifyAt orderWitness 7).1 ∧
+    (simplifyAt orderWitness 7).1.get 7 = .aliased 9 := by
+  refine ⟨by decide, by decide, by decide⟩
+
+/-- ✗ DEFECT WITNESS (real code agrees, corpus/C10/cycle-after-equivalent-exchanges.ops):
+    `CsgTree::exchange` with a logically equivalent node can create a cycle.  On
+    `cycleWitness` (sorted, reached by six inserts and one equivalent exchange) the call
+    `exchange(6, Negated{3})` replaces node 6 = ¬5 by the equivalent ¬3 (5 ≡ S1 = node 3); the
+    dedup map still maps the key `Negated{3}` to node 7, which meanwhile is an alias of 6; the
+    swap-with-higher-duplicate branch copies that alias into node 6: node 6 = `Aliased{6}`.
+    Every recursive evaluator/builder of the real code then recurses forever on node 6, and the
+    budgeted `denote` no longer gives ¬S1.  So the hypothesis `SwapSafe` of `exchange_preserves`
+    cannot be dropped, and `exchange` does not meet its documented contract. -/
+theorem exchange_equivalent_can_create_cycle :
+    Sorted cycleWitness ∧
+    (∀ σ, evalNode σ (denote cycleWitness σ) (.negated 3) = denote cycleWitness σ 6) ∧
+    (∀ σ, denote cycleWitness σ 6 = !σ 1) ∧
+    (exchange cycleWitness 6 (.negated 3)).1.get 6 = .aliased 6 ∧
+    (∀ σ, denote (exchange cycleWitness 6 (.negated 3)).1 σ 6 = false) := by
+  have hnodes : cycleWitness.nodes = [.tru, .negated 0, .surface 2, .surface 1,
+      .joined .and [2, 3], .joined .or [3, 4], .negated 5, .aliased 6] := by decide
+  have hnodes' : (exchange cycleWitness 6 (.negated 3)).1.nodes = [.tru, .negated 0, .surface 2,
+      .surface 1, .joined .and [2, 3], .joined .or [3, 4], .aliased 6, .aliased 6] := by decide
+  have h6 : ∀ σ, denote cycleWitness σ 6 = !σ 1 := by
+    intro σ
+    unfold denote
+    rw [hnodes]
+    simp only [denoteFuel, evalNode, List.getD_cons_succ, List.getD_cons_zero, List.all_cons,
+      List.all_nil, List.any_cons, List.any_nil, Bool.and_true, Bool.or_false]
+    cases σ 1 <;> cases σ 2 <;> rfl
+  have h3 : ∀ σ, denote cycleWitness σ 3 = σ 1 := by
+    intro σ
+    unfold denote
+    rw [hnodes]
+    simp only [denoteFuel, evalNode, List.getD_cons_succ, List.getD_cons_zero]
+  refine ⟨by decide, fun σ => ?_, h6, by decide, fun σ => ?_⟩
+  · rw [h6]; simp only [evalNode, h3]
+  · unfold denote
+    rw [hnodes']
+    simp only [denoteFuel, evalNode, List.getD_cons_succ, List.getD_cons_zero]
+
+/-- the hypothesis `NoNegAlias` of `flagSimple_sound` cannot be dropped: after the public calls
+    `exchange(5, True); simplify(6)` node 7 = `Negated(6)` with 6 = `Aliased(4)`,
+    4 = `S0 ∧ S1`, is flagged simple although `¬(S0 ∧ S1)` is not a conjunction of literals -/
+theorem flag_unsound_with_negated_alias :
+    flag negAliasWitness 7 = some false ∧
+    (∀ σ, denote negAliasWitness σ 7 = !(σ 0 && σ 1)) ∧
+    ¬ ∃ (c : Bool) (L : List Lit), ∀ σ, denote negAliasWitness σ 7 = (c && litsHold σ L) := by
+  have hnodes : negAliasWitness.nodes = [.tru, .negated 0, .surface 0, .surface 1,
+      .joined .and [2, 3], .aliased 0, .aliased 4, .negated 6] := by decide
+  have hden : ∀ σ, denote negAliasWitness σ 7 = !(σ 0 && σ 1) := by
+    intro σ
+    unfold denote
+    rw [hnodes]
+    simp only [denoteFuel, evalNode, List.getD_cons_succ, List.getD_cons_zero, List.all_cons,
+      List.all_nil, Bool.and_true]
+  refine ⟨by decide, hden, ?_⟩
+  rintro ⟨c, L, h⟩
+  have hTT := h (fun _ => true)
+  have hFT := h (fun s => s != 0)
+  have hTF := h (fun s => s != 1)
+  rw [hden] at hTT hFT hTF
+  simp only [bne_self_eq_false, Bool.false_and, Bool.not_false, Bool.and_self, Bool.not_true,
+    show ((0 : Nat) != 1) = true by decide, show ((1 : Nat) != 0) = true by decide,
+    Bool.and_false, Bool.true_and] at hTT hFT hTF
+  have hc : c = true := by
+    cases c with
+    | true => rfl
+    | false => rw [Bool.false_and] at hFT; cases hFT
+  subst hc
+  simp only [Bool.true_and] at hTT hFT hTF
+  have hall : litsHold (fun _ => true) L = true := by
+    unfold litsHold at *
+    rw [List.all_eq_true]
+    intro p hp
+    have h1 := (List.all_eq_true.1 hFT.symm) p hp
+    have h2 := (List.all_eq_true.1 hTF.symm) p hp
+    by_cases h0 : p.1 = 0
+    · simp [h0] at h1 h2; rw [h1] at h2; cases h2
+    · by_cases h1' : p.1 = 1
+      · simp [h1'] at h1 h2; rw [h1] at h2; cases h2
+      · have : (p.1 != 0) = true := by simpa using h0
+        simp only [this] at h1
+        simpa using h1
+  rw [hall] at hTT; cases hTT
+
+/-! ### non-vacuity: the hypotheses of the theorems above are satisfiable -/
+
+/-- the invariant holds for a tree built by `insert` from the empty tree (`ex1`: node 4 =
+    S0 ∧ S1); uses `insert_preserves` three times -/
+theorem treeInv_ex1 : TreeInv ex1 := by
+  have i1 := (insert_preserves empty_inv (n := .surface 0) (by simp [Node.children]) (by decide)).1
+  have i2 := (insert_preserves i1 (n := .surface 1) (by simp [Node.children]) (by decide)).1
+  exact (insert_preserves i2 (n := .joined .and [2, 3]) (by decide) (by decide)).1
+
+/-- every surface id of `ex1` is below the operator tokens; no negation of an alias -/
+theorem ex1_side_conditions :
+    (∀ i k, i < ex1.size → ex1.get i = .surface k → k < lbegin) ∧ NoNegAlias ex1 := by
+  have hsz : ex1.size = 5 := by decide
+  have g0 : ex1.get 0 = .tru := by decide
+  have g1 : ex1.get 1 = .negated 0 := by decide
+  have g2 : ex1.get 2 = .surface 0 := by decide
+  have g3 : ex1.get 3 = .surface 1 := by decide
+  have g4 : ex1.get 4 = .joined .and [2, 3] := by decide
+  constructor
+  · intro i k hi hg
+    rw [hsz] at hi
+    have : i = 0 ∨ i = 1 ∨ i = 2 ∨ i = 3 ∨ i = 4 := by omega
+    rcases this with rfl | rfl | rfl | rfl | rfl
+    · rw [g0] at hg; cases hg
+    · rw [g1] at hg; cases hg
+    · rw [g2] at hg; cases hg; decide
+    · rw [g3] at hg; cases hg; decide
+    · rw [g4] at hg; cases hg
+  · intro i a b hi hg
+    rw [hsz] at hi
+    have : i = 0 ∨ i = 1 ∨ i = 2 ∨ i = 3 ∨ i = 4 := by omega
+    rcases this with rfl | rfl | rfl | rfl | rfl
+    · rw [g0] at hg; cases hg
+    · rw [g1] at hg; cases hg; rw [g0]; intro h; cases h
+    · rw [g2] at hg; cases hg
+    · rw [g3] at hg; cases hg
+    · rw [g4] at hg; cases hg
+
+-- (b): the emitted logic of node 4 is `0 1 &` with faces [0, 1]; both evaluators give `denote`
+example (σ : Nat → Bool) :
+    evalBits [0, 1, land] (fun f => σ ([0, 1].getD f 0)) = denote ex1 σ 4 :=
+  (postfix_correct treeInv_ex1 ex1_side_conditions.1 none trivial σ (n := 4) (by decide)
+    (show postfixOf ex1 none 4 = some ([0, 1], [0, 1, land]) by decide)).2 (by decide)
+
+-- (c3)/(c2): `simplify(4)` on `ex1`; the swap branch is not taken, so `SwapSafe` holds
+example : TreeInv (simplifyAt ex1 4).1 ∧
+    ∀ σ i, i < ex1.size → denote (simplifyAt ex1 4).1 σ i = denote ex1 σ i :=
+  simplifyNode_preserves treeInv_ex1 (by decide) (by decide) (by
+    intro other h hlt
+    have : ex1.lookup (simplified ex1 (ex1.get 4)) = some 4 := by decide
+    rw [this] at h; cases h; omega)
+
+-- (c2), order-free: exchange node 4 of `ex1` with the equal node `S1 ∧ S0`
+example (σ : Nat → Bool) :
+    Good (exchange ex1 4 (.joined .and [3, 2])).1 σ (denote ex1 σ) :=
+  (exchange_preserves_models (treeInv_ex1.good σ) (by decide) (by decide) (by decide) (by
+    have h4 := (denote_models treeInv_ex1.sorted σ) 4 (by decide)
+    rw [h4, show ex1.get 4 = .joined .and [2, 3] by decide]
+    simp [evalNode, Bool.and_comm])).1
+
+-- (c3), (c4) order-free on `ex1`
+example (σ : Nat → Bool) : Good (simplifyAt ex1 4).1 σ (denote ex1 σ) :=
+  (simplifyNode_preserves_models (treeInv_ex1.good σ) (by decide) (by decide)).1
+
+example : ∃ t', simplifyAll ex1 2 = some t' ∧ ∀ σ, Good t' σ (denote ex1 σ) := by
+  cases h : simplifyAll ex1 2 with
+  | none =>
+    have : (simplifyAll ex1 2).isSome = true := by decide
+    rw [h] at this; cases this
+  | some t' => exact ⟨t', rfl, fun σ => (simplifyAll_preserves_models (treeInv_ex1.good σ) (by decide) h).1⟩
+
+-- (d): replacing node 4 (= S0 ∧ S1) by `true`, at the all-true assignment (consistent)
+example : (match replaceAndSimplify ex1 4 true with
+    | .ok t' _ => Good t' (fun _ => true) (denote ex1 (fun _ => true)) ∧ t'.size = ex1.size ∧
+        t'.volumes = ex1.volumes
+    | .contradiction _ => False
+    | .outOfFuel _ => True) :=
+  replaceAndSimplify_sound (σ := fun _ => true) (key := 4) (treeInv_ex1.good _) (by decide) true
+    (by decide)
+
+example : (match replaceAndSimplify ex1 4 true with | .ok _ _ => true | _ => false) = true := by
+  decide
+
+-- (f): node 4 of `ex1` is flagged simple and is the conjunction S0 ∧ S1
+example : ∃ (c : Bool) (L : List Lit), ∀ σ, denote ex1 σ 4 = (c && litsHold σ L) :=
+  flagSimple_sound_denote treeInv_ex1 ex1_side_conditions.2 (by decide) (by decide)
 
 end CelerVerif.Csg
